@@ -275,3 +275,45 @@ Proof.
   repeat split; try (cbn; discriminate); try assumption. left. reflexivity.
 Qed.
 Print Assumptions C15_db_level_reshare_possible.
+
+(* ---- process-wide in-memory stores (Gen/TenantCaches.v, Model/TenantCache.v) ------------------------------ *)
+Require Import Mistral.Model.TenantCache Mistral.Proofs.TenantCacheProofs Mistral.Gen.TenantCaches.
+
+(* every in-memory store of the current source that holds tenant-owned content is keyed by something unique across
+   projects (a row id, or a name together with the owning project), or is a multimap whose consumer keeps
+   own-or-public entries only *)
+Theorem C15_tenant_stores_keyed_across_projects : forall n s, In (n, s) tenant_stores -> store_ok s = true.
+Proof.
+  assert (H : forallb (fun e => store_ok (snd e)) tenant_stores = true) by (vm_compute; reflexivity).
+  intros n s Hin. rewrite forallb_forall in H. exact (H (n, s) Hin).
+Qed.
+Print Assumptions C15_tenant_stores_keyed_across_projects.
+
+(* NAME COLLISIONS DO NOT CROSS PROJECTS THROUGH A SHARED STORE.  For every slot store of the current source and every
+   sequence of creates / updates (version bumps) / deletes and re-creates under a fresh id / uses by any projects,
+   a project using its resource by name through the store is served content written by that project. *)
+Theorem C15_shared_stores_isolated : forall n kind ops k p nm a d,
+  In (n, SlotStore kind) tenant_stores ->
+  nth_error ops k = Some (TUse p nm) ->
+  nth_error (fst (trun kind ops empty_state)) k = Some (Some (a, d)) -> a = p.
+Proof.
+  intros n kind ops k p nm a d Hin. apply shared_store_isolated_from_empty.
+  exact (C15_tenant_stores_keyed_across_projects n (SlotStore kind) Hin).
+Qed.
+Print Assumptions C15_shared_stores_isolated.
+
+(* a key that is not unique across projects leaks: two projects, same name, the second is served the first one's content *)
+Theorem C15_name_keyed_store_leaks : forall kind, key_cross_unique kind = false ->
+  nth_error (fst (trun kind collide_ops empty_state)) 3 = Some (Some (1, 100)).
+Proof. exact name_key_leaks. Qed.
+Print Assumptions C15_name_keyed_store_leaks.
+
+Theorem C15_filtered_multimap_own_or_public : forall p entries e,
+  In e (multi_lookup p entries) -> In e entries /\ (fst (fst e) = p \/ snd (fst e) = true).
+Proof. exact multi_lookup_own_or_public. Qed.
+Print Assumptions C15_filtered_multimap_own_or_public.
+
+(* the action providers and the spec parser read tenant content only through the filtered db-api functions *)
+Theorem C15_providers_read_through_filtered_queries : provider_insecure_lookups = [].
+Proof. reflexivity. Qed.
+Print Assumptions C15_providers_read_through_filtered_queries.
